@@ -117,12 +117,24 @@ func (k *skel) stmt(depth int, s ast.Stmt) {
 			k.unknownStmt(depth, s)
 			return
 		}
+		// normal form: `x = x + e` is `x += e`, `x = x - e` is `x -= e`
+		if v.Tok == token.ASSIGN && len(v.Lhs) == 1 && len(v.Rhs) == 1 {
+			if b, ok := v.Rhs[0].(*ast.BinaryExpr); ok && (b.Op == token.ADD || b.Op == token.SUB) && norm(k.c, b.X) == norm(k.c, v.Lhs[0]) {
+				kind = "addAssign"
+				if b.Op == token.SUB {
+					kind = "subAssign"
+				}
+				k.line(depth, kind, k.expr(v.Lhs[0]), k.expr(b.Y))
+				return
+			}
+		}
 		k.line(depth, kind, k.tuple(v.Lhs), k.tuple(v.Rhs))
 	case *ast.IncDecStmt:
+		// normal form: `x++` is `x += 1`, `x--` is `x -= 1`
 		if v.Tok == token.INC {
-			k.line(depth, "inc", k.expr(v.X), ".none")
+			k.line(depth, "addAssign", k.expr(v.X), "(.int 1)")
 		} else {
-			k.line(depth, "dec", k.expr(v.X), ".none")
+			k.line(depth, "subAssign", k.expr(v.X), "(.int 1)")
 		}
 	case *ast.ExprStmt:
 		k.line(depth, "exprS", k.expr(v.X), ".none")
